@@ -74,6 +74,8 @@ SortedEq(a, b) == \* equal as multisets
 IsSorted(s) == \A i \in DOMAIN s : IF i = 1 THEN TRUE ELSE s[i-1] <= s[i]
 CHOK(e) ==
   /\ ~e.conflict /\ e.tperr = ""
+  \* cipher suites and extension identifiers are the ClientHelloSpec's, in its order (GREASE positions kept; padding / PSK may be absent)
+  /\ Get(e, "extsok", TRUE) /\ Get(e, "ciphersok", TRUE)
   /\ (HasK("tplist") =>
         LET exp == [i \in DOMAIN ExpTPs |-> ExpTPs[i][1]]
         IN IF Get(k, "randomize", FALSE) THEN SortedEq(WireIDs(e), exp) ELSE WireIDs(e) = exp)
